@@ -12,6 +12,8 @@ use crate::common::*;
 #[path = "c05_world.rs"]
 pub mod world;
 use world::*;
+#[path = "c07_wire.rs"]
+pub mod wire;
 
 pub struct C07;
 
@@ -348,5 +350,5 @@ impl Group for C07 {
 }
 
 pub fn groups() -> Vec<Box<dyn Group>> {
-    vec![Box::new(C07)]
+    vec![Box::new(C07), Box::new(wire::C07Wire)]
 }
